@@ -160,6 +160,14 @@ func (tx *Tx) Commit() error {
 		return nil
 	}
 
+	// refuse the whole transaction before anything is written: an entry that can never fit a
+	// segment must not leave the earlier entries of the transaction behind, written and indexed.
+	for _, entry := range tx.pendingWrites {
+		if entry.Size() > tx.db.opt.SegmentSize {
+			return ErrKeyAndValSize
+		}
+	}
+
 	lastIndex := writesLen - 1
 	countFlag := CountFlagEnabled
 	if tx.db.isMerging {
